@@ -115,7 +115,20 @@ func loadEngine(repo string, speclibDir string) (*Engine, error) {
 		c.Ensures = append(append([]Clause{}, ft.Ensures...), c.Ensures...)
 	}
 	for _, g := range e.contracts.Ghosts {
-		e.u.ghost[g.Type+"."+g.Field] = specSort(g.Sort)
+		srt := specSort(g.Sort)
+		if strings.HasPrefix(g.Sort, "array:") {
+			// array:<go type> resolved in the package of the ghost's owner type
+			pk := g.Type
+			if i := strings.Index(pk, "."); i > 0 {
+				pk = pk[:i]
+			}
+			t, err := e.resolveType(pk, strings.TrimPrefix(g.Sort, "array:"))
+			if err != nil {
+				return nil, err
+			}
+			srt = "(Array Int " + e.u.sortOf(t) + ")"
+		}
+		e.u.ghost[g.Type+"."+g.Field] = srt
 	}
 	e.computeEffects()
 	return e, nil
@@ -387,6 +400,9 @@ func (e *Engine) addrKeys(a ssa.Value) []string {
 		case *types.Slice:
 			return []string{"A|" + e.u.sortOf(xt.Elem())}
 		case *types.Pointer:
+			if at, ok := xt.Elem().Underlying().(*types.Array); ok {
+				return []string{"A|" + e.u.sortOf(at.Elem())}
+			}
 			return []string{"*"}
 		}
 		return []string{"*"}
